@@ -581,6 +581,259 @@ def corpus_sequences():
     return [c for c in corpus() if c.get("kind") == "sequence"]
 
 
+# ------------------------------------------------------------------ aliasing of returned objects
+# Every public zero-argument method / property of Particle whose result is a mutable non-scalar (ndarray, list, dict,
+# set, or a tuple holding one) is discovered on the tree under test.  Results of several calls (same particle twice,
+# several particles) are HELD; after every later call and after every caller-side in-place edit of a held result all
+# other held results, the particles' stored attributes and a fresh call are re-checked; results must share memory
+# neither with the particle's storage nor with each other.  (`data_` itself is the storage, not a result.)
+ALIAS_SKIP = {"data_", "print_particle"}
+MUTATIONS = ["fill0", "scale", "item0", "nan"]
+
+
+def is_mutable_nonscalar(r):
+    if isinstance(r, np.ndarray):
+        return r.ndim >= 1
+    if isinstance(r, (list, dict, set, bytearray)):
+        return True
+    if isinstance(r, tuple):
+        return any(is_mutable_nonscalar(x) for x in r)
+    return False
+
+
+def _invoke(obj, name):
+    import inspect
+    attr = inspect.getattr_static(type(obj), name, None)
+    with warnings.catch_warnings():
+        warnings.simplefilter("ignore")
+        with np.errstate(all="ignore"):
+            if isinstance(attr, property):
+                return getattr(obj, name)
+            return getattr(obj, name)()
+
+
+def discover_nonscalar_members():
+    """names of public no-argument methods / properties that return a mutable non-scalar on a fully set particle"""
+    import inspect
+    from sparkx.Particle import Particle
+    probe = make_particle(dict(t=5.0, x=1.0, y=2.0, z=3.0, E=5.0, px=0.5, py=-0.25, pz=2.0), 211)
+    names = []
+    for name in sorted(dir(Particle)):
+        if name.startswith("_") or name in ALIAS_SKIP:
+            continue
+        attr = inspect.getattr_static(Particle, name, None)
+        if isinstance(attr, property):
+            pass
+        elif inspect.isfunction(attr):
+            try:
+                params = list(inspect.signature(attr).parameters.values())[1:]
+            except (TypeError, ValueError):
+                continue
+            if any(q.default is inspect.Parameter.empty and q.kind in (q.POSITIONAL_ONLY, q.POSITIONAL_OR_KEYWORD) for q in params):
+                continue
+        else:
+            continue
+        try:
+            r = _invoke(probe, name)
+        except Exception:  # noqa: BLE001
+            continue
+        if is_mutable_nonscalar(r):
+            names.append(name)
+    return names
+
+
+def _snap(r):
+    import copy
+    return copy.deepcopy(r)
+
+
+def _same(a, b):
+    if isinstance(a, np.ndarray) or isinstance(b, np.ndarray):
+        try:
+            return isinstance(a, np.ndarray) and isinstance(b, np.ndarray) and a.shape == b.shape and \
+                bool(np.array_equal(a, b, equal_nan=True))
+        except Exception:  # noqa: BLE001
+            return False
+    if isinstance(a, tuple) and isinstance(b, tuple):
+        return len(a) == len(b) and all(_same(x, y) for x, y in zip(a, b))
+    if isinstance(a, float) and isinstance(b, float) and a != a and b != b:
+        return True
+    try:
+        return bool(a == b)
+    except Exception:  # noqa: BLE001
+        return False
+
+
+def _arrays(r):
+    if isinstance(r, np.ndarray):
+        return [r]
+    if isinstance(r, (tuple, list)):
+        return [a_ for x in r for a_ in _arrays(x)]
+    return []
+
+
+def _shares(a, b):
+    if a is b and is_mutable_nonscalar(a):
+        return True
+    return any(np.shares_memory(x, y) for x in _arrays(a) for y in _arrays(b))
+
+
+def _mutate(r, how):
+    """caller-side in-place edit of a returned object"""
+    tgt = r
+    if isinstance(r, tuple):
+        tgt = next((x for x in r if is_mutable_nonscalar(x)), None)
+    if isinstance(tgt, np.ndarray) and tgt.size:
+        if how == "fill0":
+            tgt.fill(0)
+        elif how == "scale":
+            tgt *= 2
+        elif how == "item0":
+            tgt.flat[0] = 7
+        else:
+            tgt[...] = np.nan if tgt.dtype.kind == "f" else 0
+    elif isinstance(tgt, list) and tgt:
+        if how == "fill0":
+            tgt[:] = [0] * len(tgt)
+        elif how == "item0":
+            tgt[0] = 7
+        else:
+            tgt.clear()
+    elif isinstance(tgt, (dict, set, bytearray)):
+        tgt.clear()
+
+
+def _show(r):
+    return r.tolist() if isinstance(r, np.ndarray) else r
+
+
+def judge_alias(particles, ops):
+    """particles: [{"values":…, "pdg":…}], ops: ["call", particle index, member] | ["mutate", held index, how]
+    -> [(op index, key, what, detail)]"""
+    objs = [make_particle({k: float(x) for k, x in q["values"].items()}, q.get("pdg")) for q in particles]
+    stored = [np.array(o.data_, copy=True) for o in objs]
+    held = []   # [op index, particle index, member, object, snapshot at return time, edited by the caller?]
+    out = []
+
+    def bad(i, key, what):
+        out.append((i, key, what, dict(particles=particles, ops=ops[:i + 1])))
+
+    def recheck(i, cause, skip=None):
+        for h in held:
+            if h is skip or h[5]:
+                continue
+            if not _same(h[3], h[4]):
+                bad(i, f"aliasing:{h[2]}:earlier-result-changed-by-{cause}",
+                    f"{h[2]}() of particle {h[1]} (op {h[0]}) was {_show(h[4])} when returned and reads {_show(h[3])} after op {i} {ops[i]}")
+                h[4] = _snap(h[3])
+        for j, (o, st) in enumerate(zip(objs, stored)):
+            if not np.array_equal(o.data_, st, equal_nan=True):
+                bad(i, f"aliasing:{ops[i][2] if ops[i][0] == 'call' else held[ops[i][1]][2]}:particle-attributes-changed-by-{cause}",
+                    f"stored attributes of particle {j} changed after op {i} {ops[i]}")
+                stored[j] = np.array(o.data_, copy=True)
+
+    for i, op in enumerate(ops):
+        if op[0] == "call":
+            _, pi, name = op
+            try:
+                r = _invoke(objs[pi], name)
+            except Exception as e:  # noqa: BLE001
+                r = ("raise", type(e).__name__)
+            recheck(i, "a-later-call")
+            if is_mutable_nonscalar(r):
+                if _shares(r, objs[pi].data_) or any(_shares(r, o.data_) for o in objs):
+                    bad(i, f"aliasing:{name}:result-shares-memory-with-particle-storage",
+                        f"{name}() of particle {pi} returns an object that shares memory with data_")
+                for h in held:
+                    if is_mutable_nonscalar(h[3]) and _shares(r, h[3]):
+                        bad(i, f"aliasing:{name}:results-share-memory",
+                            f"{name}() of particle {pi} (op {i}) shares memory with the result of {h[2]}() of particle {h[1]} (op {h[0]})")
+                        break
+            held.append([i, pi, name, r, _snap(r), False, _snap(r)])
+        elif op[0] == "mutate":
+            _, hi, how = op
+            if hi >= len(held) or not is_mutable_nonscalar(held[hi][3]):
+                continue
+            h = held[hi]
+            before = h[6]  # the value as it was returned
+            _mutate(h[3], how)
+            h[5] = True
+            recheck(i, "a-caller-side-edit-of-another-result", skip=h)
+            try:
+                again = _invoke(objs[h[1]], h[2])
+            except Exception as e:  # noqa: BLE001
+                again = ("raise", type(e).__name__)
+            if not _same(again, before):
+                bad(i, f"aliasing:{h[2]}:later-call-changed-by-a-caller-side-edit",
+                    f"after editing ({how}) the object returned by {h[2]}() of particle {h[1]}, a new call returns {_show(again)} instead of {_show(before)}")
+            recheck(i, "a-later-call")
+    # the values the caller still holds must still satisfy the definition (kinematic methods only)
+    for h in held:
+        if h[2] in METHODS and not h[5] and isinstance(h[3], np.ndarray) and h[3].shape == (3,):
+            q = particles[h[1]]
+            v = {k: float(x) for k, x in q["values"].items()}
+            res = dict(zip(METHODS, real_all(v, q.get("pdg"))))
+            ok_fresh = not any(k.startswith(h[2]) for k, _, _ in check_particle(v, q.get("pdg"), res))
+            res[h[2]] = ("vec", [float(x) for x in h[3]])
+            items = [it for it in check_particle(v, q.get("pdg"), res) if it[0].startswith(h[2])]
+            if items and ok_fresh:
+                bad(len(ops) - 1, f"aliasing:{h[2]}:held-result-no-longer-satisfies-definition",
+                    f"the array returned by {h[2]}() for particle {h[1]} (op {h[0]}) now reads {_show(h[3])}: {items[0][1]}")
+    return out
+
+
+def gen_alias_case(rng, members):
+    n = rng.randint(1, 4)
+    particles = []
+    for _ in range(n):
+        v = {k: sgn(rng) * float(rng.randint(1, 9)) * rng.choice([1.0, 0.5, 0.1]) for k in ATTRS}
+        v["t"] = abs(v["z"]) + 1.0
+        v["E"] = math.sqrt(1.0 + v["px"] ** 2 + v["py"] ** 2 + v["pz"] ** 2)
+        if rng.random() < 0.15:
+            v[rng.choice(ATTRS)] = NAN
+        particles.append(dict(values=v, pdg=rng.choice([211, 22, None])))
+    pool = list(members) * 3 + METHODS
+    ops, ncall = [], 0
+    for _ in range(rng.randint(2, 9)):
+        if ncall and rng.random() < 0.3:
+            ops.append(["mutate", rng.randrange(ncall), rng.choice(MUTATIONS)])
+        else:
+            ops.append(["call", rng.randrange(n), rng.choice(pool)])
+            ncall += 1
+    return particles, ops
+
+
+def shrink_alias(particles, ops, key):
+    def fails(ps, os_):
+        try:
+            return any(k == key for _, k, _, _ in judge_alias(ps, os_))
+        except Exception:  # noqa: BLE001
+            return False
+    hit = [i for i, k, _, _ in judge_alias(particles, ops) if k == key]
+    if not hit:
+        return particles, ops
+    ops = [list(o) for o in ops[:hit[0] + 1]]
+    changed = True
+    while changed:
+        changed = False
+        for j in range(len(ops)):
+            cand = ops[:j] + ops[j + 1:]
+            if ops[j][0] == "call":  # held indices of later mutate ops shift
+                nth = sum(1 for o in ops[:j] if o[0] == "call")
+                cand = [([o[0], o[1] - 1, o[2]] if o[0] == "mutate" and o[1] > nth else o) for o in cand
+                        if not (o[0] == "mutate" and o[1] == nth)]
+            if cand and fails(particles, cand):
+                ops, changed = cand, True
+                break
+    used = sorted({o[1] for o in ops if o[0] == "call"})
+    if len(used) < len(particles):
+        ps = [particles[i] for i in used]
+        os_ = [([o[0], used.index(o[1]), o[2]] if o[0] == "call" else o) for o in ops]
+        if fails(ps, os_):
+            particles, ops = ps, os_
+    return particles, ops
+
+
 # ------------------------------------------------------------------ correspondence (tie C)
 def correspond(ctx):
     rng = ctx.rng
@@ -598,7 +851,7 @@ def correspond(ctx):
         n = max(n, 20000)
     cases = []
     for case in corpus():
-        if case.get("kind") != "sequence":
+        if case.get("kind") not in ("sequence", "alias"):
             cases.append((dict(case["values"]), case.get("pdg"), "corpus"))
     cases += sign_grid_cases()
     gens = [gen_generic] * 4 + [gen_ultra] * 2 + [gen_boundary] * 3 + [gen_negE] + [gen_signs] * 2
@@ -961,7 +1214,7 @@ def search(ctx, budget_s):
 
     # corpus first
     for case in corpus():
-        if case.get("kind") == "sequence":
+        if case.get("kind") in ("sequence", "alias"):
             continue
         v = {k: float(x) for k, x in case["values"].items()}
         report(check_particle(v, case.get("pdg")), v, case.get("pdg"), "corpus")
@@ -996,6 +1249,26 @@ def search(ctx, budget_s):
         ctx.case(("oracle-seq", json.dumps([start, steps], sort_keys=True, default=str)), True)
         n += 1
     ctx.count("oracle/histories", len(seqs))
+    # aliasing of returned non-scalar objects
+    members = discover_nonscalar_members()
+    ctx.cov["nonscalar_returning_members"] = members
+    acases = [(c["particles"], c["ops"], "corpus") for c in corpus() if c.get("kind") == "alias"]
+    if members:
+        acases += [gen_alias_case(rng, members) + ("random",) for _ in range(ctx.n(120, 3000))]
+    for particles, ops, tag in acases:
+        for i, key, what, detail in judge_alias(particles, ops):
+            if key in found:
+                continue
+            found[key] = 1
+            ps2, os2 = shrink_alias(particles, ops, key)
+            again = [it for it in judge_alias(ps2, os2) if it[1] == key]
+            if again:
+                i, key, what, detail = again[0]
+            ctx.violation(key, what, dict(input=dict(kind="alias", particles=ps2, ops=os2, category="aliasing/" + tag),
+                                          detail=detail, how_to_replay="./check C08 --replay <this file>"))
+        ctx.case(("oracle-alias", json.dumps([particles, ops], sort_keys=True, default=str)), True)
+        n += 1
+    ctx.count("oracle/aliasing-call-sequences", len(acases))
     ctx.count("oracle/history-call-steps", nsteps)
     limit = ctx.n(3000, 200000)
     gens = [gen_generic] * 3 + [gen_ultra] * 2 + [gen_boundary] * 4 + [gen_negE] + [gen_signs] * 3
@@ -1071,6 +1344,20 @@ def replay(ctx, path):
         return 1
     if inp.get("kind") == "sequence":
         return replay_sequence(ctx, path, inp)
+    if inp.get("kind") == "alias":
+        print(f"[C08] non-scalar returning members on this tree: {discover_nonscalar_members()}")
+        for j, q in enumerate(inp["particles"]):
+            print(f"[C08]   particle {j}: {q}")
+        for i, op in enumerate(inp["ops"]):
+            print(f"[C08]   op {i}: {op}")
+        items = judge_alias(inp["particles"], inp["ops"])
+        if items:
+            print(f"VIOLATION property=C08 replay={path}")
+            for i, key, what, _ in items:
+                print(f"  [{key}] op {i}: {what}")
+            return 1
+        print("[C08] replay: returned objects are independent along this call sequence now")
+        return 0
     v = {k: float(x) for k, x in inp["values"].items()}
     pdg = inp.get("pdg")
     items = check_particle(v, pdg)
